@@ -1,9 +1,605 @@
-import SymbolVerif.Model.Cats.Validate
+/-
+# C06 — the validator accepts every consistent schema and reports every broken reference
+
+Model: `Model/Cats/Validate.lean` (both modes of `AstValidator`).
+
+* `Consistent`: the declarative predicate spelled from the property - member-level references resolve inside the declaring body and
+  are well typed, struct-level attributes resolve inside the (expanded) layout.
+* `validate_sound`: a consistent schema has no error, in either mode.
+* one completeness theorem per breakage kind of the property's list.  They are stronger than "break exactly one site of a consistent
+  schema": *whenever* a schema holds such a broken reference - whatever else is wrong with it - the stage named in the theorem
+  reports an error of the stated kind that names the struct holding the reference and the member (where there is one).
+* `errors_localised`: the errors reported for a declaration depend only on the declaration itself and on the declarations of the
+  types its members name, so a struct that neither contains nor inherits a broken reference gets the same (empty) error list.
+* `validate_total`: the model always returns a list (Lean functions are total); that the *Python* reports instead of crashing is
+  checked by the correspondence run, which lists three crash sites of the unchanged tree as known findings.
+
+Not proved (see the end of the file): that `postProcess` maps member-level consistency of the declared bodies to member-level
+consistency of the expanded layouts (`Consistent` therefore states the condition for the expanded schema directly).
+-/
+import SymbolVerif.Proofs.CatsValidate
+import SymbolVerif.Model.Cats.Expand
 namespace SymbolVerif.C06
 open SymbolVerif.Cats
 
-/-- the model is a total function: it always returns an error list (the Python "reports rather than crashes" clause is the
-    correspondence check's) -/
+/-! ## the predicate `Consistent` -/
+
+/-- a value is right for a type: one of the enumeration's value names when the type is an enumeration, numeric otherwise -/
+def InRange (S : Schema) (ft : FieldType) (v : Scalar) : Prop :=
+  match ft with
+  | .named n =>
+    match Schema.lookup S n with
+    | some (.enum e) => ∃ ev ∈ e.values, v = .str ev.name
+    | _ => v.isInt = true
+  | _ => v.isInt = true
+
+/-- the `sizeof` target is a member of the same body whose type is a struct marked `is_size_implicit` -/
+def SizeofConsistent (S : Schema) (M : Struct) (v : Scalar) : Prop :=
+  ∃ s target n R, v = .str s ∧ fieldMapGet M s = some target ∧ target.fieldType = .named n ∧
+    Schema.lookup S n = some (.struct R) ∧ R.isSizeImplicit.truthy = true
+
+def ValueConsistent (S : Schema) (M : Struct) (f : StructField) : Prop :=
+  match f.value with
+  | .scalar .none => True
+  | .scalar v => if f.disposition = some "sizeof" then SizeofConsistent S M v else InRange S f.fieldType v
+  | .cond c => f.disposition ≠ some "sizeof" ∧ ∃ linked, fieldMapGet M c.linkedFieldName = some linked ∧ InRange S linked.fieldType c.value
+
+structure ArrayConsistent (S : Schema) (M : Struct) (a : ArrayType) : Prop where
+  element_known : ∀ n, a.elementType = .named n → (Schema.lookup S n).isSome = true
+  sort_key_resolves : (a.sortKey.getD .none).truthy = true → sortKeyValid S a.elementType (a.sortKey.getD .none) = true
+  size_resolves : ∀ s, a.size = .str s → (fieldMapGet M s).isSome = true
+
+/-- member-level consistency of one field of the body `M` -/
+structure FieldConsistent (S : Schema) (M : Struct) (f : StructField) : Prop where
+  type_ok : ∀ n, f.fieldType = .named n → ∃ d, Schema.lookup S n = some d ∧
+    (f.disposition = some "inline" → d.disposition? = some (some "inline"))
+  sizeref_ok : ∀ t r, f.fieldType = .int t → t.sizeref = some r → (fieldMapGet M r.propertyName).isSome = true
+  array_ok : ∀ a, f.fieldType = .array a → ArrayConsistent S M a
+  value_ok : ValueConsistent S M f
+  attributes_ok : ∀ a ∈ attrList f.attributes, hasAttr f.fieldType a.name = true
+
+def MemberConsistent (S : Schema) (M : Struct) : Member → Prop
+  | .inlinePlaceholder t _ => (Schema.lookup S t).isSome = true
+  | .field f => FieldConsistent S M f
+
+/-- struct-level attributes resolve inside the layout of `M` and are well typed -/
+structure AttributesConsistent (M : Struct) : Prop where
+  size_ok : M.size.truthy = true → ∃ n target t, M.size = .str n ∧ fieldMapGet M n = some target ∧ target.fieldType = .int t
+  discriminator_ok : ∀ v ∈ M.discriminator.getD [], inFieldMap M v = true
+  comparer_ok : ∀ p ∈ M.comparer, inFieldMap M p.1 = true ∧ (p.2 = .none ∨ p.2 = .str "ripemd_keccak_256")
+  initializers_ok : ∀ i ∈ M.initializers, ∃ a b fa fb, i.targetPropertyName = .str a ∧ i.value = .str b ∧
+    fieldMapGet M a = some fa ∧ fieldMapGet M b = some fb ∧ fa.fieldType.render = fb.fieldType.render
+
+def DeclConsistent (mode : Mode) (S : Schema) : Decl → Prop
+  | .alias _ => True
+  | .enum e => (e.values.map (·.name)).Nodup
+  | .struct M => (M.fields.filterMap Member.name?).Nodup ∧ (∀ m ∈ M.fields, MemberConsistent S M m) ∧
+      (mode = .post → AttributesConsistent M)
+
+def ConsistentIn (mode : Mode) (S : Schema) : Prop := ∀ d ∈ S, DeclConsistent mode S d
+
+/-- the property's notion: member-level references within the declaring body, struct-level attributes within the expanded layout -/
+def Consistent (S : Schema) : Prop :=
+  ConsistentIn .pre S ∧ ∀ E, postProcess S = .ok E → ConsistentIn .post E
+
+/-! ## soundness -/
+
+theorem inRange_sound {S : Schema} {tn fn : String} {ft : FieldType} {v : Scalar} (h : InRange S ft v) :
+    inRangeErrors S tn fn ft v = [] := by
+  unfold InRange at h
+  unfold inRangeErrors
+  cases ft with
+  | named n =>
+    simp only at h ⊢
+    cases hl : Schema.lookup S n with
+    | none => simp [hl] at h; simp [h]
+    | some d =>
+      cases d with
+      | enum e =>
+        simp only [hl] at h
+        obtain ⟨ev, hev, rfl⟩ := h
+        have : (e.values.any fun v => decide (Scalar.str ev.name = Scalar.str v.name)) = true :=
+          List.any_eq_true.mpr ⟨ev, hev, by simp⟩
+        simp only [this, if_true]
+      | alias a => simp [hl] at h; simp [h]
+      | struct s => simp [hl] at h; simp [h]
+  | int t => simp at h; simp [h]
+  | array a => simp at h; simp [h]
+
+theorem sizeof_sound {S : Schema} {M : Struct} {f : StructField} {v : Scalar} (h : SizeofConsistent S M v) :
+    sizeofErrors S M f v = [] := by
+  obtain ⟨s, target, n, R, rfl, ht, hft, hl, himp⟩ := h
+  simp [sizeofErrors, sizeofTarget, ht, hft, hl, himp]
+
+theorem field_sound {S : Schema} {M : Struct} {f : StructField} (h : FieldConsistent S M f) : fieldErrors S M f = [] := by
+  have h1 : typeErrors S M.name f = [] := by
+    unfold typeErrors
+    cases hft : f.fieldType with
+    | named n =>
+      obtain ⟨d, hl, hin⟩ := h.type_ok n hft
+      simp only [hl]
+      by_cases hd : f.disposition = some "inline"
+      · simp [hd, hin hd]
+      · simp [hd]
+    | int t => simp
+    | array a => simp
+  have h2 : integerErrors M f = [] := by
+    cases hft : f.fieldType with
+    | int t =>
+      cases hsr : t.sizeref with
+      | none => simp [integerErrors, hft, hsr]
+      | some r => simp [integerErrors, hft, hsr, h.sizeref_ok t r hft hsr]
+    | named n => simp [integerErrors, hft]
+    | array a => simp [integerErrors, hft]
+  have h3 : arrayErrors S M f = [] := by
+    cases hft : f.fieldType with
+    | array a =>
+      have ha := h.array_ok a hft
+      have hknown : elemKnown S a = true := by
+        unfold elemKnown
+        cases he : a.elementType with
+        | named n => simpa [isKnownType] using ha.element_known n he
+        | int t => rfl
+      have hsort : sortKeyOk S a = true := by
+        unfold sortKeyOk
+        by_cases ht : (a.sortKey.getD .none).truthy = true
+        · simp [hknown, ht, ha.sort_key_resolves ht]
+        · simp [hknown, ht]
+      have hsize : arraySizeErrors M f.name a = [] := by
+        unfold arraySizeErrors
+        cases hs : a.size with
+        | str s => simp [ha.size_resolves s hs]
+        | int i => rfl
+        | bool b => rfl
+        | none => rfl
+      simp [arrayErrors, hft, arrayElemErrors, arraySortErrors, hknown, hsort, hsize]
+    | named n => simp [arrayErrors, hft]
+    | int t => simp [arrayErrors, hft]
+  have h4 : valueErrors S M f = [] := by
+    have hv := h.value_ok
+    unfold ValueConsistent at hv
+    unfold valueErrors
+    cases hval : f.value with
+    | scalar v =>
+      rw [hval] at hv
+      cases v with
+      | none => rfl
+      | str s =>
+        simp only at hv ⊢
+        by_cases hd : f.disposition = some "sizeof"
+        · simp only [hd, if_true] at hv ⊢; exact sizeof_sound hv
+        · simp only [hd, if_false] at hv ⊢; exact inRange_sound hv
+      | int i =>
+        simp only at hv ⊢
+        by_cases hd : f.disposition = some "sizeof"
+        · simp only [hd, if_true] at hv ⊢; exact sizeof_sound hv
+        · simp only [hd, if_false] at hv ⊢; exact inRange_sound hv
+      | bool b =>
+        simp only at hv ⊢
+        by_cases hd : f.disposition = some "sizeof"
+        · simp only [hd, if_true] at hv ⊢; exact sizeof_sound hv
+        · simp only [hd, if_false] at hv ⊢; exact inRange_sound hv
+    | cond c =>
+      rw [hval] at hv
+      obtain ⟨hd, linked, hl, hr⟩ := hv
+      simp only [hd, if_false, hl]
+      exact inRange_sound hr
+  have h5 : attributeErrors M.name f = [] := by
+    unfold attributeErrors
+    rw [List.flatMap_eq_nil_iff]
+    intro a ha
+    simp [h.attributes_ok a ha]
+  simp [fieldErrors, h1, h2, h3, h4, h5]
+
+theorem attributes_sound {M : Struct} (h : AttributesConsistent M) : structAttributeErrors M = [] := by
+  have h1 : sizeAttributeErrors M = [] := by
+    unfold sizeAttributeErrors
+    by_cases ht : M.size.truthy = true
+    · obtain ⟨n, target, t, hs, hm, hft⟩ := h.size_ok ht
+      simp [ht, hs, knownFieldErrors, inFieldMap, hm, hft]
+    · simp [ht]
+  have h2 : discriminatorErrors M = [] := by
+    unfold discriminatorErrors knownFieldErrors
+    rw [List.flatMap_eq_nil_iff]
+    intro v hv
+    simp [h.discriminator_ok v hv]
+  have h3 : comparerErrors M = [] := by
+    unfold comparerErrors
+    rw [List.flatMap_eq_nil_iff]
+    intro p hp
+    obtain ⟨hin, htr⟩ := h.comparer_ok p hp
+    rcases htr with htr | htr <;> simp [hin, htr]
+  have h4 : initializerErrors M = [] := by
+    unfold initializerErrors
+    rw [List.flatMap_eq_nil_iff]
+    intro i hi
+    obtain ⟨a, b, fa, fb, ha, hb, hfa, hfb, heq⟩ := h.initializers_ok i hi
+    simp [ha, hb, inFieldMap, hfa, hfb, heq]
+  simp [structAttributeErrors, h1, h2, h3, h4]
+
+theorem consistentIn_sound {mode : Mode} {S : Schema} (h : ConsistentIn mode S) : validate mode S = [] := by
+  unfold validate
+  rw [List.flatMap_eq_nil_iff]
+  intro d hd
+  have hc := h d hd
+  cases d with
+  | alias a => rfl
+  | enum e =>
+    simp only [DeclConsistent] at hc
+    simp [declErrors, enumErrors, duplicateNames_of_nodup hc]
+  | struct M =>
+    obtain ⟨hnd, hmem, hattr⟩ := hc
+    have hm : M.fields.flatMap (memberErrors S M) = [] := by
+      rw [List.flatMap_eq_nil_iff]
+      intro m hm
+      have := hmem m hm
+      cases m with
+      | inlinePlaceholder t c => simp only [MemberConsistent] at this; simp [memberErrors, isKnownType, this]
+      | field f => exact field_sound this
+    have ha : (if mode = .post then structAttributeErrors M else []) = [] := by
+      by_cases hmode : mode = .post
+      · simp [hmode, attributes_sound (hattr hmode)]
+      · simp [hmode]
+    simp only [declErrors, structErrors, duplicateNames_of_nodup hnd, hm, ha, List.append_nil]
+
+/-- **validate_sound**: a consistent schema is accepted before expansion and after it -/
+theorem validate_sound {S : Schema} (h : Consistent S) :
+    validate .pre S = [] ∧ ∀ E, postProcess S = .ok E → validate .post E = [] :=
+  ⟨consistentIn_sound h.1, fun E hE => consistentIn_sound (h.2 E hE)⟩
+
+/-! ## completeness: one theorem per breakage kind -/
+
+/-- an error of a member check reaches the result and names the struct and the member -/
+theorem report_field {mode : Mode} {S : Schema} {M : Struct} {f : StructField} {e : ErrorDescriptor} (k : MsgKind)
+    (hM : Decl.struct M ∈ S) (hf : Member.field f ∈ M.fields) (he : e ∈ fieldErrors S M f) (hk : e.kind = k) :
+    ∃ e ∈ validate mode S, e.typename = M.name ∧ e.fieldNames = [f.name] ∧ e.kind = k :=
+  ⟨e, mem_validate_of_member hM hf he, (fieldErrors_names he).1, (fieldErrors_names he).2, hk⟩
+
+theorem report_attrs {S : Schema} {M : Struct} {e : ErrorDescriptor} (k : MsgKind)
+    (hM : Decl.struct M ∈ S) (he : e ∈ structAttributeErrors M) (htn : e.typename = M.name) (hk : e.kind = k) :
+    ∃ e ∈ validate .post S, e.typename = M.name ∧ e.kind = k :=
+  ⟨e, mem_validate_of_attrs hM he, htn, hk⟩
+
+/-- 1. unknown member type -/
+theorem unknown_member_type {mode : Mode} {S : Schema} {M : Struct} {f : StructField} {n : String}
+    (hM : Decl.struct M ∈ S) (hf : Member.field f ∈ M.fields) (hty : f.fieldType = .named n) (hunk : Schema.lookup S n = none) :
+    ∃ e ∈ validate mode S, e.typename = M.name ∧ e.fieldNames = [f.name] ∧ e.kind = .unknownType := by
+  refine report_field (e := mkErr M.name [f.name] .unknownType s!"reference to unknown type \"{n}\"") _ hM hf ?_ rfl
+  simp [fieldErrors, typeErrors, hty, hunk]
+
+/-- 2. unknown element type -/
+theorem unknown_element_type {mode : Mode} {S : Schema} {M : Struct} {f : StructField} {a : ArrayType} {n : String}
+    (hM : Decl.struct M ∈ S) (hf : Member.field f ∈ M.fields) (hty : f.fieldType = .array a) (he : a.elementType = .named n)
+    (hunk : Schema.lookup S n = none) :
+    ∃ e ∈ validate mode S, e.typename = M.name ∧ e.fieldNames = [f.name] ∧ e.kind = .unknownElementType := by
+  refine report_field (e := mkErr M.name [f.name] .unknownElementType s!"reference to unknown element type \"{a.elementType.render}\"")
+    _ hM hf ?_ rfl
+  simp [fieldErrors, arrayErrors, arrayElemErrors, elemKnown, hty, he, isKnownType, hunk]
+
+/-- 3. unknown inlined type (unnamed inline; a named inline of an unknown type is `unknown_member_type`) -/
+theorem unknown_inlined_type {mode : Mode} {S : Schema} {M : Struct} {t : String} {c : Option Comment}
+    (hM : Decl.struct M ∈ S) (hf : Member.inlinePlaceholder t c ∈ M.fields) (hunk : Schema.lookup S t = none) :
+    ∃ e ∈ validate mode S, e.typename = M.name ∧ e.fieldNames = [] ∧ e.kind = .unknownInlinedType := by
+  refine ⟨mkErr M.name [] .unknownInlinedType s!"reference to unknown inlined type \"{t}\"", ?_, rfl, rfl, rfl⟩
+  apply mem_validate_of_member hM hf
+  simp [memberErrors, isKnownType, hunk]
+
+/-- 4. unknown size member of an array -/
+theorem unknown_size_ref {mode : Mode} {S : Schema} {M : Struct} {f : StructField} {a : ArrayType} {s : String}
+    (hM : Decl.struct M ∈ S) (hf : Member.field f ∈ M.fields) (hty : f.fieldType = .array a) (hs : a.size = .str s)
+    (hunk : fieldMapGet M s = none) :
+    ∃ e ∈ validate mode S, e.typename = M.name ∧ e.fieldNames = [f.name] ∧ e.kind = .unknownSizeProperty := by
+  refine report_field (e := mkErr M.name [f.name] .unknownSizeProperty s!"reference to unknown size property \"{s}\"") _ hM hf ?_ rfl
+  simp [fieldErrors, arrayErrors, arraySizeErrors, hty, hs, hunk]
+
+/-- 5. unknown sort key (the key is not a member of the element type, or the element type has no members) -/
+theorem unknown_sort_key {mode : Mode} {S : Schema} {M : Struct} {f : StructField} {a : ArrayType} {k : Scalar}
+    (hM : Decl.struct M ∈ S) (hf : Member.field f ∈ M.fields) (hty : f.fieldType = .array a) (hk : a.sortKey = some k)
+    (htruthy : k.truthy = true) (hbad : sortKeyValid S a.elementType k = false) :
+    ∃ e ∈ validate mode S, e.typename = M.name ∧ e.fieldNames = [f.name] ∧ e.kind = .unknownSortKey := by
+  refine report_field (e := mkErr M.name [f.name] .unknownSortKey s!"reference to unknown sort_key property \"{k.pyStr}\"") _ hM hf ?_ rfl
+  have hk' : a.sortKey.getD .none = k := by rw [hk]; rfl
+  have hbad' : sortKeyOk S a = false := by
+    unfold sortKeyOk
+    rw [hk']
+    by_cases hkn : elemKnown S a = true <;> simp [hkn, htruthy, hbad]
+  simp [fieldErrors, arrayErrors, arraySortErrors, hty, hbad', hk']
+
+/-- 6. unknown `sizeof` target -/
+theorem unknown_sizeof_target {mode : Mode} {S : Schema} {M : Struct} {f : StructField} {v : String}
+    (hM : Decl.struct M ∈ S) (hf : Member.field f ∈ M.fields) (hd : f.disposition = some "sizeof") (hv : f.value = .scalar (.str v))
+    (hunk : fieldMapGet M v = none) :
+    ∃ e ∈ validate mode S, e.typename = M.name ∧ e.fieldNames = [f.name] ∧ e.kind = .unknownSizeofProperty := by
+  refine report_field (e := mkErr M.name [f.name] .unknownSizeofProperty s!"reference to unknown sizeof property \"{v}\"") _ hM hf ?_ rfl
+  simp [fieldErrors, valueErrors, hv, hd, sizeofErrors, sizeofTarget, hunk, Scalar.pyStr]
+
+/-- 7. unknown `sizeref` target -/
+theorem unknown_sizeref_target {mode : Mode} {S : Schema} {M : Struct} {f : StructField} {t : IntType} {r : SizeRef}
+    (hM : Decl.struct M ∈ S) (hf : Member.field f ∈ M.fields) (hty : f.fieldType = .int t) (hr : t.sizeref = some r)
+    (hunk : fieldMapGet M r.propertyName = none) :
+    ∃ e ∈ validate mode S, e.typename = M.name ∧ e.fieldNames = [f.name] ∧ e.kind = .unknownSizerefProperty := by
+  refine report_field (e := mkErr M.name [f.name] .unknownSizerefProperty s!"reference to unknown sizeref property \"{r.propertyName}\"")
+    _ hM hf ?_ rfl
+  simp [fieldErrors, integerErrors, hty, hr, hunk]
+
+/-- 8. unknown condition member -/
+theorem unknown_condition_member {mode : Mode} {S : Schema} {M : Struct} {f : StructField} {c : Conditional}
+    (hM : Decl.struct M ∈ S) (hf : Member.field f ∈ M.fields) (hd : f.disposition ≠ some "sizeof") (hv : f.value = .cond c)
+    (hunk : fieldMapGet M c.linkedFieldName = none) :
+    ∃ e ∈ validate mode S, e.typename = M.name ∧ e.fieldNames = [f.name] ∧ e.kind = .unknownConditionField := by
+  refine report_field (e := mkErr M.name [f.name] .unknownConditionField s!"reference to unknown condition field \"{c.linkedFieldName}\"")
+    _ hM hf ?_ rfl
+  simp [fieldErrors, valueErrors, hv, hd, hunk]
+
+/-- the value check reports a value that is not in range for its type -/
+theorem inRange_complete {S : Schema} {tn fn : String} {ft : FieldType} {v : Scalar} (h : ¬ InRange S ft v) :
+    ∃ e ∈ inRangeErrors S tn fn ft v, e.kind = .notEnumValue ∨ e.kind = .notNumeric := by
+  unfold InRange at h
+  unfold inRangeErrors
+  cases ft with
+  | named n =>
+    cases hl : Schema.lookup S n with
+    | none => simp only [hl] at h ⊢; exact exists_mem_ite_nil h (by exact Or.inr rfl)
+    | some d =>
+      cases d with
+      | enum e =>
+        simp only [hl] at h ⊢
+        have : ¬ (e.values.any fun x => decide (v = Scalar.str x.name)) = true := by
+          intro hany
+          obtain ⟨ev, hev, heq⟩ := List.any_eq_true.mp hany
+          exact h ⟨ev, hev, by simpa using heq⟩
+        exact exists_mem_ite_nil this (by exact Or.inl rfl)
+      | alias a => simp only [hl] at h ⊢; exact exists_mem_ite_nil h (by exact Or.inr rfl)
+      | struct s => simp only [hl] at h ⊢; exact exists_mem_ite_nil h (by exact Or.inr rfl)
+  | int t => simp only at h ⊢; exact exists_mem_ite_nil h (by exact Or.inr rfl)
+  | array a => simp only at h ⊢; exact exists_mem_ite_nil h (by exact Or.inr rfl)
+
+/-- 9. condition value not in the referenced enumeration / not numeric -/
+theorem condition_value_not_in_enum {mode : Mode} {S : Schema} {M : Struct} {f linked : StructField} {c : Conditional}
+    (hM : Decl.struct M ∈ S) (hf : Member.field f ∈ M.fields) (hd : f.disposition ≠ some "sizeof") (hv : f.value = .cond c)
+    (hl : fieldMapGet M c.linkedFieldName = some linked) (hbad : ¬ InRange S linked.fieldType c.value) :
+    ∃ e ∈ validate mode S, e.typename = M.name ∧ e.fieldNames = [f.name] ∧ (e.kind = .notEnumValue ∨ e.kind = .notNumeric) := by
+  obtain ⟨e, he, hk⟩ := inRange_complete (tn := M.name) (fn := f.name) hbad
+  have hmem : e ∈ fieldErrors S M f := by
+    simp only [fieldErrors, List.mem_append]
+    refine Or.inl (Or.inr ?_)
+    simp [valueErrors, hv, hd, hl, he]
+  exact ⟨e, mem_validate_of_member hM hf hmem, (fieldErrors_names hmem).1, (fieldErrors_names hmem).2, hk⟩
+
+/-- 10. constant / reserved value not in the referenced enumeration / not numeric -/
+theorem const_value_not_in_enum_or_numeric {mode : Mode} {S : Schema} {M : Struct} {f : StructField} {v : Scalar}
+    (hM : Decl.struct M ∈ S) (hf : Member.field f ∈ M.fields) (hd : f.disposition ≠ some "sizeof") (hv : f.value = .scalar v)
+    (hnone : v ≠ .none) (hbad : ¬ InRange S f.fieldType v) :
+    ∃ e ∈ validate mode S, e.typename = M.name ∧ e.fieldNames = [f.name] ∧ (e.kind = .notEnumValue ∨ e.kind = .notNumeric) := by
+  obtain ⟨e, he, hk⟩ := inRange_complete (tn := M.name) (fn := f.name) hbad
+  have hmem : e ∈ fieldErrors S M f := by
+    simp only [fieldErrors, List.mem_append]
+    refine Or.inl (Or.inr ?_)
+    cases v with
+    | none => exact absurd rfl hnone
+    | str s => simp [valueErrors, hv, hd, he]
+    | int i => simp [valueErrors, hv, hd, he]
+    | bool b => simp [valueErrors, hv, hd, he]
+  exact ⟨e, mem_validate_of_member hM hf hmem, (fieldErrors_names hmem).1, (fieldErrors_names hmem).2, hk⟩
+
+/-- 11. `sizeof` of a member whose type is not a struct (fixed size, or unknown), or a struct without `is_size_implicit` -/
+theorem sizeof_fixed_or_not_implicit {mode : Mode} {S : Schema} {M : Struct} {f target : StructField} {v : String}
+    (hM : Decl.struct M ∈ S) (hf : Member.field f ∈ M.fields) (hd : f.disposition = some "sizeof") (hv : f.value = .scalar (.str v))
+    (ht : fieldMapGet M v = some target)
+    (hbad : ¬ ∃ n R, target.fieldType = .named n ∧ Schema.lookup S n = some (.struct R) ∧ R.isSizeImplicit.truthy = true) :
+    ∃ e ∈ validate mode S, e.typename = M.name ∧ e.fieldNames = [f.name] ∧ (e.kind = .sizeofFixedSize ∨ e.kind = .sizeofNotImplicit) := by
+  have hval : valueErrors S M f = sizeofErrors S M f (.str v) := by simp [valueErrors, hv, hd]
+  have : ∃ e ∈ sizeofErrors S M f (.str v), e.kind = .sizeofFixedSize ∨ e.kind = .sizeofNotImplicit := by
+    unfold sizeofErrors
+    simp only [sizeofTarget, ht]
+    cases hft : target.fieldType with
+    | named n =>
+      simp only
+      cases hl : Schema.lookup S n with
+      | none => simp only; exact exists_mem_singleton (by exact Or.inl rfl)
+      | some d =>
+        cases d with
+        | struct R =>
+          simp only
+          have himp : ¬ R.isSizeImplicit.truthy = true := fun himp => hbad ⟨n, R, hft, hl, himp⟩
+          exact exists_mem_ite_nil himp (by exact Or.inr rfl)
+        | alias a => simp only; exact exists_mem_singleton (by exact Or.inl rfl)
+        | enum e => simp only; exact exists_mem_singleton (by exact Or.inl rfl)
+    | int t => simp only; exact exists_mem_singleton (by exact Or.inl rfl)
+    | array a => simp only; exact exists_mem_singleton (by exact Or.inl rfl)
+  obtain ⟨e, he, hk⟩ := this
+  have hmem : e ∈ fieldErrors S M f := by
+    simp only [fieldErrors, List.mem_append]
+    exact Or.inl (Or.inr (by rw [hval]; exact he))
+  exact ⟨e, mem_validate_of_member hM hf hmem, (fieldErrors_names hmem).1, (fieldErrors_names hmem).2, hk⟩
+
+/-- 12. `@size(x)`: unknown member, or a member that is not an integer (after expansion) -/
+theorem bad_size_attr {S : Schema} {M : Struct} (hM : Decl.struct M ∈ S) (ht : M.size.truthy = true)
+    (hbad : ¬ ∃ n target t, M.size = .str n ∧ fieldMapGet M n = some target ∧ target.fieldType = .int t) :
+    ∃ e ∈ validate .post S, e.typename = M.name ∧ (e.kind = .unknownAttributeProperty ∨ e.kind = .sizeUnexpectedType) := by
+  have : ∃ e ∈ sizeAttributeErrors M, e.typename = M.name ∧ (e.kind = .unknownAttributeProperty ∨ e.kind = .sizeUnexpectedType) := by
+    unfold sizeAttributeErrors
+    simp only [ht, Bool.not_true, Bool.false_eq_true, if_false]
+    by_cases hin : inFieldMap M M.size = true
+    · simp only [knownFieldErrors, List.flatMap_cons, List.flatMap_nil, hin, if_true, List.append_nil, List.isEmpty_nil, Bool.not_true,
+        Bool.false_eq_true, if_false]
+      cases hs : M.size with
+      | str n =>
+        rw [hs] at hin
+        simp only [inFieldMap] at hin
+        obtain ⟨target, htarget⟩ := Option.isSome_iff_exists.mp hin
+        simp only [htarget]
+        cases hft : target.fieldType with
+        | int t => exact absurd ⟨n, target, t, hs, htarget, hft⟩ hbad
+        | named x => exact exists_mem_singleton (by exact ⟨rfl, Or.inr rfl⟩)
+        | array a => exact exists_mem_singleton (by exact ⟨rfl, Or.inr rfl⟩)
+      | int i => rw [hs] at hin; simp [inFieldMap] at hin
+      | bool b => rw [hs] at hin; simp [inFieldMap] at hin
+      | none => rw [hs] at hin; simp [inFieldMap] at hin
+    · have hin' : inFieldMap M M.size = false := by simpa using hin
+      obtain ⟨e, he, htn, hk⟩ := knownField_complete (M := M) (p := "size") (vs := [M.size]) (v := M.size) (by simp) hin'
+      have hne : (knownFieldErrors M "size" [M.size]).isEmpty = false := by
+        cases hl : knownFieldErrors M "size" [M.size] with
+        | nil => rw [hl] at he; cases he
+        | cons a b => rfl
+      exact ⟨e, by simp [hne, he], htn, Or.inl hk⟩
+  obtain ⟨e, he, htn, hk⟩ := this
+  exact ⟨e, mem_validate_of_attrs hM (by simp [structAttributeErrors, he]), htn, hk⟩
+
+/-- 13. `@discriminator`: unknown member (after expansion) -/
+theorem bad_discriminator {S : Schema} {M : Struct} {v : Scalar} (hM : Decl.struct M ∈ S) (hv : v ∈ M.discriminator.getD [])
+    (hbad : inFieldMap M v = false) :
+    ∃ e ∈ validate .post S, e.typename = M.name ∧ e.kind = .unknownAttributeProperty := by
+  obtain ⟨e, he, htn, hk⟩ := knownField_complete (M := M) (p := "discriminator") hv hbad
+  refine report_attrs _ hM ?_ htn hk
+  simp only [structAttributeErrors, discriminatorErrors, List.mem_append]
+  exact Or.inl (Or.inl (Or.inr he))
+
+/-- 14. `@comparer`: unknown member or unknown transform (after expansion) -/
+theorem bad_comparer {S : Schema} {M : Struct} {p : Scalar × Scalar} (hM : Decl.struct M ∈ S) (hp : p ∈ M.comparer)
+    (hbad : inFieldMap M p.1 = false ∨ (p.2 ≠ .none ∧ p.2 ≠ .str "ripemd_keccak_256")) :
+    ∃ e ∈ validate .post S, e.typename = M.name ∧ (e.kind = .unknownComparerProperty ∨ e.kind = .unknownComparerTransform) := by
+  rcases hbad with hbad | hbad
+  · refine ⟨mkErr M.name [] .unknownComparerProperty s!"reference to unknown \"comparer\" property \"{p.1.pyStr}\"", ?_, rfl, Or.inl rfl⟩
+    apply mem_validate_of_attrs hM
+    simp only [structAttributeErrors, comparerErrors, List.mem_append, List.mem_flatMap]
+    exact Or.inl (Or.inr ⟨p, hp, by simp [hbad]⟩)
+  · refine ⟨mkErr M.name [] .unknownComparerTransform s!"reference to unknown \"comparer\" transform \"{p.2.pyStr}\"", ?_, rfl, Or.inr rfl⟩
+    apply mem_validate_of_attrs hM
+    simp only [structAttributeErrors, comparerErrors, List.mem_append, List.mem_flatMap]
+    exact Or.inl (Or.inr ⟨p, hp, by simp [hbad.1, hbad.2]⟩)
+
+/-- 15. `@initializes`: unknown target; unknown constant in a concrete struct; constant of a different type (after expansion) -/
+theorem bad_initializer {S : Schema} {M : Struct} {i : Initializer} (hM : Decl.struct M ∈ S) (hi : i ∈ M.initializers)
+    (hbad : inFieldMap M i.targetPropertyName = false ∨
+      (inFieldMap M i.value = false ∧ M.disposition ≠ some "abstract" ∧ M.disposition ≠ some "inline") ∨
+      (∃ a b fa fb, i.targetPropertyName = .str a ∧ i.value = .str b ∧ fieldMapGet M a = some fa ∧ fieldMapGet M b = some fb ∧
+        fa.fieldType.render ≠ fb.fieldType.render)) :
+    ∃ e ∈ validate .post S, e.typename = M.name ∧ (e.kind = .unknownInitializerProperty ∨ e.kind = .initializerDifferentType) := by
+  have hgoal : ∀ e, e ∈ (fun (i : Initializer) =>
+      let isConcrete := !(M.disposition = some "abstract" || M.disposition = some "inline")
+      let e1 := if inFieldMap M i.targetPropertyName then []
+        else [mkErr M.name [] .unknownInitializerProperty s!"reference to unknown \"intializes\" property \"{i.targetPropertyName.pyStr}\""]
+      let e2 := if inFieldMap M i.value || !isConcrete then []
+        else [mkErr M.name [] .unknownInitializerProperty s!"reference to unknown \"intializes\" property \"{i.value.pyStr}\""]
+      if inFieldMap M i.targetPropertyName && inFieldMap M i.value then
+        match i.targetPropertyName, i.value with
+        | .str a, .str b =>
+          match fieldMapGet M a, fieldMapGet M b with
+          | some fa, some fb =>
+            if fa.fieldType.render ≠ fb.fieldType.render then
+              [mkErr M.name [] .initializerDifferentType s!"property \"{a}\" has initializer \"{b}\" of different type"]
+            else []
+          | _, _ => []
+        | _, _ => []
+      else e1 ++ e2) i → e ∈ validate .post S := by
+    intro e he
+    apply mem_validate_of_attrs hM
+    simp only [structAttributeErrors, initializerErrors, List.mem_append, List.mem_flatMap]
+    exact Or.inr ⟨i, hi, he⟩
+  rcases hbad with hbad | hbad | hbad
+  · refine ⟨mkErr M.name [] .unknownInitializerProperty s!"reference to unknown \"intializes\" property \"{i.targetPropertyName.pyStr}\"",
+      hgoal _ ?_, rfl, Or.inl rfl⟩
+    simp [hbad]
+  · refine ⟨mkErr M.name [] .unknownInitializerProperty s!"reference to unknown \"intializes\" property \"{i.value.pyStr}\"",
+      hgoal _ ?_, rfl, Or.inl rfl⟩
+    simp [hbad.1, hbad.2.1, hbad.2.2]
+  · obtain ⟨a, b, fa, fb, ha, hb, hfa, hfb, hne⟩ := hbad
+    refine ⟨mkErr M.name [] .initializerDifferentType s!"property \"{a}\" has initializer \"{b}\" of different type",
+      hgoal _ ?_, rfl, Or.inr rfl⟩
+    simp [ha, hb, inFieldMap, hfa, hfb, hne]
+
+/-- 16. duplicate member name: the error lists the duplicated name -/
+theorem duplicate_member {mode : Mode} {S : Schema} {M : Struct} {n : String} (hM : Decl.struct M ∈ S)
+    (hdup : 2 ≤ (M.fields.filterMap Member.name?).count n) :
+    ∃ e ∈ validate mode S, e.typename = M.name ∧ n ∈ e.fieldNames ∧ e.kind = .duplicateStructFields := by
+  have hmem := mem_duplicateNames hdup
+  cases hd : duplicateNames (M.fields.filterMap Member.name?) with
+  | nil => rw [hd] at hmem; cases hmem
+  | cons x rest =>
+    refine ⟨mkErr M.name (x :: rest) .duplicateStructFields "duplicate struct fields", ?_, rfl, by rw [← hd]; exact hmem, rfl⟩
+    apply mem_validate_of_decl hM
+    simp [declErrors, structErrors, hd]
+
+/-- 17. duplicate enumeration value name -/
+theorem duplicate_enum_name {mode : Mode} {S : Schema} {E : Enum} {n : String} (hE : Decl.enum E ∈ S)
+    (hdup : 2 ≤ (E.values.map (·.name)).count n) :
+    ∃ e ∈ validate mode S, e.typename = E.name ∧ n ∈ e.fieldNames ∧ e.kind = .duplicateEnumValues := by
+  have hmem := mem_duplicateNames hdup
+  cases hd : duplicateNames (E.values.map (·.name)) with
+  | nil => rw [hd] at hmem; cases hmem
+  | cons x rest =>
+    refine ⟨mkErr E.name (x :: rest) .duplicateEnumValues "duplicate enum values", ?_, rfl, by rw [← hd]; exact hmem, rfl⟩
+    apply mem_validate_of_decl hE
+    simp [declErrors, enumErrors, hd]
+
+/-- 18. named inline of something that is not an inline struct -/
+theorem named_inline_of_non_inline {mode : Mode} {S : Schema} {M : Struct} {f : StructField} {n : String} {d : Decl}
+    (hM : Decl.struct M ∈ S) (hf : Member.field f ∈ M.fields) (hd : f.disposition = some "inline") (hty : f.fieldType = .named n)
+    (hl : Schema.lookup S n = some d) (hbad : d.disposition? ≠ some (some "inline")) :
+    ∃ e ∈ validate mode S, e.typename = M.name ∧ e.fieldNames = [f.name] ∧ e.kind = .namedInlineNonInline := by
+  refine report_field (e := mkErr M.name [f.name] .namedInlineNonInline s!"named inline field referencing non inline struct \"{n}\"")
+    _ hM hf ?_ rfl
+  simp [fieldErrors, typeErrors, hty, hl, hd, hbad]
+
+/-- 19. attribute that does not apply to the member's type -/
+theorem inapplicable_attribute {mode : Mode} {S : Schema} {M : Struct} {f : StructField} {a : Attribute}
+    (hM : Decl.struct M ∈ S) (hf : Member.field f ∈ M.fields) (ha : a ∈ attrList f.attributes) (hbad : hasAttr f.fieldType a.name = false) :
+    ∃ e ∈ validate mode S, e.typename = M.name ∧ e.fieldNames = [f.name] ∧ e.kind = .inapplicableAttribute := by
+  refine report_field (e := mkErr M.name [f.name] .inapplicableAttribute s!"inapplicable attribute \"{a.name}\"") _ hM hf ?_ rfl
+  simp only [fieldErrors, attributeErrors, List.mem_append, List.mem_flatMap]
+  exact Or.inr ⟨a, ha, by simp [hbad]⟩
+
+/-! ## localisation and totality -/
+
+/-- **errors_localised**: the errors reported for a declaration depend only on the declaration itself and on the declarations
+    its members name (`typeRefs`: member types, element types, inlined types).  Breaking a reference somewhere changes the error
+    list of no struct whose own text and whose named types are untouched - in particular a struct of a consistent schema that
+    neither contains nor inherits the broken reference still has no error. -/
+theorem errors_localised {mode : Mode} {S S' : Schema} {d : Decl}
+    (h : ∀ M, d = .struct M → ∀ n ∈ typeRefs M, Schema.lookup S n = Schema.lookup S' n) : declErrors mode S d = declErrors mode S' d := by
+  cases d with
+  | alias a => rfl
+  | enum e => rfl
+  | struct M => exact structErrors_congr (h M rfl)
+
+/-- every error names the declaration it was produced for -/
+theorem error_names_its_declaration {mode : Mode} {S : Schema} {e : ErrorDescriptor} (he : e ∈ validate mode S) :
+    ∃ d ∈ S, e ∈ declErrors mode S d ∧ e.typename = d.name := by
+  obtain ⟨d, hd, hed⟩ := List.mem_flatMap.mp he
+  refine ⟨d, hd, hed, ?_⟩
+  cases d with
+  | alias a => cases hed
+  | enum E =>
+    simp only [declErrors, enumErrors] at hed
+    split at hed
+    · cases hed
+    · simp [mkErr] at hed; subst hed; rfl
+  | struct M =>
+    simp only [declErrors, structErrors, List.mem_append, List.mem_flatMap] at hed
+    rcases hed with (hed | ⟨m, _, hm⟩) | hed
+    · split at hed
+      · cases hed
+      · simp [mkErr] at hed; subst hed; rfl
+    · cases m with
+      | inlinePlaceholder t c =>
+        simp only [memberErrors] at hm
+        split at hm
+        · cases hm
+        · simp [mkErr] at hm; subst hm; rfl
+      | field f => exact (fieldErrors_names hm).1
+    · split at hed
+      · exact (structAttributeErrors_named e hed).1
+      · cases hed
+
+/-- **validate_total**: the model always returns an error list (Lean functions are total; the Python side of "reports rather than
+    crashes" is the correspondence check's) -/
 theorem validate_total (mode : Mode) (S : Schema) : ∃ errs, validate mode S = errs := ⟨_, rfl⟩
+
+/-
+Stated, not proved:
+* `expansion_preserves_member_consistency : ConsistentIn .pre S -> postProcess S = ok E -> member-level part of ConsistentIn .post E`
+  (needs C05's re-pointing theorem lifted to whole layouts).
+-/
 
 end SymbolVerif.C06
